@@ -1,0 +1,62 @@
+//! Scheduling points for deterministic simulation. Only compiled with
+//! `--cfg exmex_verif`; without that flag neither this module nor any call
+//! into it exists.
+//!
+//! A simulator registers a callback once per process via [`set_hook`]. The
+//! library calls [`point`] at the sites listed in [`Site`]. The callback may
+//! return immediately, park the calling thread for a while, or unwind. It
+//! must not call back into the same expression mutably (it cannot, the sites
+//! only hold shared or local borrows).
+use std::sync::OnceLock;
+
+/// Identifies the place in exmex a scheduling point was reached from.
+#[derive(Clone, Copy, Debug, PartialEq, Eq, PartialOrd, Ord, Hash)]
+#[repr(u8)]
+pub enum Site {
+    /// head of the tokenizer loop in `parser::tokenize_and_analyze`
+    TokenStep = 0,
+    /// immediately before a use of one of the process-global regexes
+    RegexUse = 1,
+    /// head of the token loop in `flat::detail::make_expression`
+    FlatBuildStep = 2,
+    /// head of the token loop in `deep::detail::make_expression`
+    DeepBuildStep = 3,
+    /// head of the folding loop in `FlatEx::compile`
+    FlatFoldStep = 4,
+    /// head of the folding loop in `DeepEx::compile`
+    DeepFoldStep = 5,
+    /// a node of a flat expression is loaded into the local number array
+    FlatLoadNode = 6,
+    /// head of the reduction loop in `expression::eval_binary`
+    EvalStep = 7,
+    /// a node of a deep expression is loaded/evaluated in `DeepEx::eval_relaxed`
+    DeepLoadNode = 8,
+    /// head of the reduction loop in `flatex_to_deepex`
+    ToDeepStep = 9,
+    /// a node is visited in `flat::flatten_vecs`
+    FlattenNode = 10,
+    /// a node is visited in `DeepEx::subs`
+    SubsNode = 11,
+    /// head of the reduction loop in `partial_derivative_inner`
+    PartialStep = 12,
+    /// entry of `deep::detail::unparse_raw` (once per rendered sub-expression)
+    UnparseNode = 13,
+}
+
+/// Number of variants of [`Site`].
+pub const N_SITES: usize = 14;
+
+static HOOK: OnceLock<fn(Site)> = OnceLock::new();
+
+/// Registers the process-wide callback. Returns `false` if one was registered before.
+pub fn set_hook(f: fn(Site)) -> bool {
+    HOOK.set(f).is_ok()
+}
+
+/// Scheduling point; a no-op until [`set_hook`] has been called.
+#[inline]
+pub fn point(site: Site) {
+    if let Some(f) = HOOK.get() {
+        f(site)
+    }
+}
